@@ -339,6 +339,79 @@ def run_texpr(e):
     raise ValueError(op)
 
 
+def cups_cost(l):
+    """Multiply-adds of `Tensor.cups(l, l.r)`: rigid.cups composes, one wire pair at a time,
+    the running tensor (dom = l @ r) with the layer id @ cup @ id (rigid.py:449-454)."""
+    l = eff(l)
+    n2 = size(l) ** 2
+    cur, cost = n2, n2 * n2
+    for d in reversed(l):
+        nxt = cur // (d * d)
+        cost += cur * nxt + n2 * cur * nxt
+        cur = nxt
+    return cost
+
+
+def texpr_cost(e):
+    """(dom, cod, work, peak): effective dims of the result when the expression is well typed,
+    an estimate of the multiply-adds the Lean model spends on it and the largest array built.
+    Used only to keep generated cases small; never part of a comparison."""
+    op = e[0]
+    if op == "T":
+        d, c = eff(e[1]), eff(e[2])
+        return d, c, size(d) * size(c), size(d) * size(c)
+    if op == "id":
+        d = eff(e[1])
+        return d, d, size(d) ** 2, size(d) ** 2
+    if op == "swap":
+        l, r = eff(e[1]), eff(e[2])
+        return l + r, r + l, size(l + r) ** 2, size(l + r) ** 2
+    if op == "zeros":
+        l, r = eff(e[1]), eff(e[2])
+        return l, r, size(l) * size(r), size(l) * size(r)
+    if op == "spider":
+        d = eff(e[3])
+        n = size(d) ** (e[1] + e[2])
+        return d * e[1], d * e[2], n, n
+    if op in ("cups", "caps"):
+        l, r = eff(e[1]), eff(e[2])
+        if list(reversed(l)) != r:
+            return l + r, [], 1, 1
+        work, peak = cups_cost(l), size(l) ** 4
+        return (l + r, [], work, peak) if op == "cups" else ([], l + r, work, peak)
+    if op in ("then", "tensor", "add"):
+        ad, ac, aw, ap = texpr_cost(e[1])
+        bd, bc, bw, bp = texpr_cost(e[2])
+        if op == "then":
+            out = size(ad) * size(bc)
+            w = size(ad) * size(ac) * size(bc) if ac == bd else 1
+            return ad, bc, aw + bw + w, max(ap, bp, out)
+        if op == "tensor":
+            out = size(ad) * size(ac) * size(bd) * size(bc)
+            return ad + bd, ac + bc, aw + bw + 2 * out, max(ap, bp, out)
+        return ad, ac, aw + bw + size(ad) * size(ac), max(ap, bp)
+    ad, ac, aw, ap = texpr_cost(e[1])
+    n = size(ad) * size(ac)
+    if op == "dagger":
+        return ac, ad, aw + n, ap
+    if op == "transpose":
+        return list(reversed(ac)), list(reversed(ad)), aw + n, ap
+    return ad, ac, aw + n, ap
+
+
+def bounded_texpr(gen, depth, work=400000, peak=20000, tries=30):
+    """A TGen expression within the model's cost budget: regenerate (same rng, so still
+    a function of the seed) until the estimate fits.  Returns (gen-tuple, rejected)."""
+    rejected = 0
+    for _ in range(tries):
+        out = gen.expr(depth)
+        _, _, w, p = texpr_cost(out[0])
+        if w <= work and p <= peak:
+            return out, rejected
+        rejected += 1
+    return gen.lit([2], [2]), rejected
+
+
 def texpr_ops(e, acc=None):
     acc = [] if acc is None else acc
     acc.append(e[0])
